@@ -3,7 +3,6 @@ package props
 import (
 	"context"
 	"encoding/json"
-	"errors"
 	"fmt"
 	"math/rand/v2"
 	"runtime"
@@ -43,18 +42,43 @@ type jGen struct {
 
 var jTopicUniverse = []string{"a", "b", "c", ""}
 
+// jBigUniverse: 24 topics; scenarios that use it publish messages to up to 16 topics and
+// subscribe to up to 12.
+var jBigUniverse = func() []string {
+	u := []string{"a", "b", "c", ""}
+	for i := 0; i < 20; i++ {
+		u = append(u, "topic-"+strconv.Itoa(i))
+	}
+	return u
+}()
+
+var jUseBig bool
+
 func pickTopics(rng *rand.Rand, max int) []string {
+	u := jTopicUniverse
+	if jUseBig {
+		u = jBigUniverse
+		max *= 5
+	}
 	n := 1 + rng.IntN(max)
-	perm := rng.Perm(len(jTopicUniverse))
+	if n > len(u) {
+		n = len(u)
+	}
+	perm := rng.Perm(len(u))
 	out := make([]string, 0, n)
 	for _, i := range perm[:n] {
-		out = append(out, jTopicUniverse[i])
+		out = append(out, u[i])
 	}
 	return out
 }
 
 func genJoe(rng *rand.Rand, g jGen) *jScenario {
 	sc := &jScenario{Probe: true}
+	jUseBig = rng.IntN(6) == 0
+	defer func() { jUseBig = false }()
+	if rng.IntN(2) == 0 {
+		sc.ErrKind = mon.ErrKinds[rng.IntN(len(mon.ErrKinds))]
+	}
 	sc.Replayer = g.Replayers[rng.IntN(len(g.Replayers))]
 	tok := 0
 	next := func() string { tok++; return "m" + strconv.Itoa(tok) }
@@ -67,12 +91,17 @@ func genJoe(rng *rand.Rand, g jGen) *jScenario {
 		for i := 0; i < h; i++ {
 			sc.Prefix = append(sc.Prefix, jMsg{Token: next(), Topics: pickTopics(rng, 2)})
 		}
+		if sc.manualIDs() && sc.Replayer != "rec" && sc.Replayer != "none" && h > 2 && rng.IntN(4) == 0 {
+			sc.Prefix[rng.IntN(h-1)].EmptyID = true // an ID that is set but empty
+		}
 		if g.BadIDs && h > 1 && rng.IntN(3) == 0 {
 			// a rejected publish in the middle of the prefix (it must not consume an automatic ID)
 			k := 1 + rng.IntN(h-1)
 			sc.Prefix = append(sc.Prefix[:k], append([]jMsg{{Token: next(), Topics: pickTopics(rng, 2), BadID: true}}, sc.Prefix[k:]...)...)
 		}
-		if len(sc.Replayer) > 6 && sc.Replayer[:6] == "valid:" && rng.IntN(2) == 0 {
+		if len(sc.Replayer) > 6 && sc.Replayer[:6] == "valid:" && rng.IntN(5) == 0 {
+			sc.ValidTTL = 1<<63 - 1 // "keep forever"
+		} else if len(sc.Replayer) > 6 && sc.Replayer[:6] == "valid:" && rng.IntN(2) == 0 {
 			// a short TTL and gaps between the prefix publishes: older events expire, Put-triggered
 			// collections run, the ring grows, wraps and shrinks
 			sc.ValidTTL = int64(200 + rng.IntN(1800))
@@ -132,13 +161,24 @@ func genJoe(rng *rand.Rand, g jGen) *jScenario {
 				if sc.autoIDs() {
 					return strconv.Itoa(i)
 				}
+				if valid[i].EmptyID {
+					return ""
+				}
 				return "id-" + valid[i].Token
 			}
 			lo := 0
 			if capN > 0 && h > capN {
 				lo = h - capN
 			}
+			emptyAt := -1
+			for k := lo; k < h; k++ {
+				if valid[k].EmptyID {
+					emptyAt = k
+				}
+			}
 			switch c := rng.IntN(10); {
+			case emptyAt >= 0 && c < 4:
+				s.LastID, s.LastIDSet, s.LastIDClass = "", true, "middle"
 			case c < 2:
 				s.LastID, s.LastIDSet, s.LastIDClass = idOf(lo), true, "oldest"
 			case c < 5:
@@ -431,6 +471,12 @@ func TestC06(t *testing.T) {
 	jLoop(t, r, "S", r.N(4000, 60000), g, 4, 6, jTargeted, func(sc *jScenario, tr *jTrace) []jv {
 		return oracleSubscriberSafety(sc, tr)
 	})
+	// many subscribers (more than any batch size an implementation might use inside a round)
+	gl := g
+	gl.MaxSubs, gl.MaxMsgs, gl.Resume = 140, 12, false
+	jLoop(t, r, "L", r.N(64, 1200), gl, 2, 2, []map[string]int64{{"loop.sent": 3}, {"loop.errsent": 20, "sub.ctxdone": 10}}, func(sc *jScenario, tr *jTrace) []jv {
+		return oracleSubscriberSafety(sc, tr)
+	})
 	// real goroutines, real parallelism
 	runtime.GOMAXPROCS(16)
 	nr := r.N(20000, 400000)
@@ -566,7 +612,7 @@ func c06RealStress(r *fw.Run, key string, rng *rand.Rand) {
 		}
 		if fi := clientFailure(calls); fi >= 0 && st.ret != st.failErr {
 			r.Violation(key, []string{"subscribe_return_wrong", "own_error_lost", "real_goroutines"}, map[string]any{"subscriber": st.cl.Name, "returned": fmt.Sprint(st.ret)}, "C06: subscriber's own %s failed but Subscribe returned %v (real goroutines)", calls[fi].Op, st.ret)
-		} else if fi < 0 && st.ret != nil && !errors.Is(st.ret, sse.ErrProviderClosed) {
+		} else if fi < 0 && st.ret != nil && !(st.ret == sse.ErrProviderClosed) {
 			r.Violation(key, []string{"subscribe_return_wrong", "real_goroutines"}, nil, "C06: Subscribe returned %v without any failure", st.ret)
 		}
 	}
@@ -580,11 +626,15 @@ func genC07(rng *rand.Rand, g jGen) *jScenario {
 	ns := 1 + rng.IntN(3)
 	for i := 0; i < ns; i++ {
 		sd := jShutdown{At: int64(rng.IntN(500)), Ctx: "bg"}
-		switch rng.IntN(5) {
+		switch rng.IntN(7) {
 		case 0:
 			sd.Ctx = "cancelled"
 		case 1:
 			sd.Ctx = "deadline:" + strconv.Itoa(1+rng.IntN(60))
+		case 2:
+			sd.Ctx = "cancelled_cause"
+		case 3:
+			sd.Ctx = "deadline_cause:" + strconv.Itoa(1+rng.IntN(60))
 		}
 		if i > 0 && rng.IntN(2) == 0 {
 			sd.At = sc.Shutdowns[0].At // concurrent shutdowns
@@ -626,6 +676,25 @@ func TestC07(t *testing.T) {
 		}
 	}
 	r.Count("interleaving_signatures_distinct_in_batch", int64(len(sigs)))
+	// many subscribers, Shutdown in the middle of delivery rounds
+	nl := r.N(64, 1200)
+	gl := g
+	gl.MaxSubs, gl.MaxMsgs = 140, 10
+	for i := 0; i < nl; i++ {
+		if !r.Mine("L", i) {
+			continue
+		}
+		key := fw.Key("L", i)
+		rng := r.Rand("L", i)
+		sc := genC07(rng, gl)
+		for k := range sc.Shutdowns {
+			sc.Shutdowns[k].At = int64(100 + rng.IntN(500))
+		}
+		sc.Procs = jProcs[i%len(jProcs)]
+		jRunAll(t, r, key, sc, jSchedules(rng, 0, 2, 0, []map[string]int64{{"loop.sent": 2}}), func(sc *jScenario, tr *jTrace) []jv {
+			return oracleReturns(sc, tr)
+		}, sigs)
+	}
 }
 
 // ---- C17 -----------------------------------------------------------------------------------
